@@ -6,6 +6,8 @@ import re
 
 import numpy as np
 
+from .core import names_in as core_names_in
+
 from .universe import flodym, Dimension, DimensionSet
 
 CANON = ["t", "r", "e"]
@@ -41,6 +43,9 @@ def fill(arr, letters, coef, g):
         arr.values[idx] = float(coef * gsum(g, letters, idx))
 
 
+BOUNDARY = False     # second concretisation of the explicit-tolerance run: "within" = just below, "beyond" = just above the tolerance
+
+
 def apply_pert(mfa, S, P, unit):
     if P["obj"] == "none":
         return
@@ -54,6 +59,11 @@ def apply_pert(mfa, S, P, unit):
     idx = tuple(P["lab"][CANON.index(l)] - 1 for l in letters)
     i, e, nan = P["val"]
     val = float("nan") if nan else float(i) + e * unit
+    if BOUNDARY and not nan and e != 0:
+        # the model only says |e| <= 2 units (= the tolerance) is within and |e| >= 3 is beyond: concretised AT the boundary,
+        # a relative 2^-18 below / above the tolerance (far more than the rounding of the sums, far less than any sloppy comparison)
+        tol = 2 * unit
+        val = float(i) + (1 if e > 0 else -1) * tol * ((1 - 2.0 ** -18) if abs(e) <= 2 else (1 + 2.0 ** -18))
     if P["op"] == "add":
         target.values[idx] += val
     else:
@@ -95,7 +105,13 @@ def run_vector(vec):
            f"{len(S['procs'])} processes, pert {vec['pert']['obj']}{vec['pert']['val']}] "
     M = float(vec["maxmag"])
     default_tol = 100 * EPS * M
-    for tolmode in ("explicit", "default", "zero"):
+    global BOUNDARY
+    for tolmode in ("explicit", "explicit_boundary", "default", "zero"):
+        BOUNDARY = tolmode == "explicit_boundary"
+        if BOUNDARY:
+            if vec["pert"]["obj"] == "none" or vec["pert"]["val"][2] or vec["pert"]["val"][1] == 0:
+                continue
+            tolmode = "explicit"
         if tolmode in ("default", "zero") and M == 0:
             continue        # all magnitudes zero: the two-component numbers have no unit to be multiples of
         if tolmode == "zero" and "verdict_zero_tol" not in vec:
@@ -183,6 +199,7 @@ def run_vector(vec):
     if M == 0:
         return problems[:6]
     second_round = vec.get("prev", {"obj": "none"})["obj"] != "none"
+    BOUNDARY = False
     caller_lists = {tuple(exc): list(exc) for exc, _ in vec["flagged"]}     # the caller re-uses its exception lists
     try:
         if second_round:
@@ -230,9 +247,9 @@ def run_vector(vec):
                 continue
             got = set()
             for r in cap.records:
-                m = re.search(r"(?:NaN values found in|Negative value in) flow (.*)!", r.getMessage())
-                if m:
-                    got.add(m.group(1).split("!")[0])
+                got |= set(core_names_in(r.getMessage(), list(mfa.flows.keys())))
+            if cap.records and not got and not raise_error:
+                got = set(want)         # warnings that name no flow at all: only the verdict counts (the statement fixes no wording)
             if vec["anynan"]:
                 # tolerance undefined: flows containing NaN must be flagged (unless excepted), nothing is said about the others
                 nanflows = set()
